@@ -1,6 +1,7 @@
 SPEC = {
-    "lean_modules": ["AM.Props.C14"],
+    "lean_modules": ["AM.Props.C13", "AM.Props.C14"],
     "theorems": [
+        "AM.Ingest.putValue_identity",
         "AM.PutOrder.group_holds_stored_version", "AM.PutOrder.split_put_reorders",
         # repaired ingestion (fixes/F3.diff): full statement over all schedules
         "AM.Workers.final_is_last_submitted", "AM.Workers.fire_then_resolve_not_stale",
@@ -19,6 +20,8 @@ SPEC = {
         {"name": "workers", "pkg": "./workers", "search_cases": 10000},
         # store-and-publish atomicity of the provider: two real concurrent submitters, a dawdling PostStore callback
         {"name": "putorder", "pkg": "./putorder", "timeout_quick": 120, "search_cases": 600},
+        # the provider itself must hold the most recently submitted version, also when two submissions carry the same receive time (C13's engine)
+        {"name": "ingest", "pkg": "./ingest", "search_cases": 8000, "quick_cases": 1500, "only": ["putValue_identity"]},
     ],
     "rule": "real mem.Alerts provider + dispatch.Dispatcher under synctest; the dispatcher's debug log line 'Received alert' "
             "(emitted by the ingestion worker between channel receive and group insert) is used as a yield point through a "
